@@ -136,7 +136,10 @@ def judge(d):
             grid = d["components"][ci]["mols"][i]["cls"] == "grid"
             ref += reference(vol, tmpl, pos[i] if grid else p32[i], R[i], order)
     err = float(np.abs(tomo - ref).max())
-    tol = (2e-2 if order == 3 else 2e-4 if order == 1 else None)
+    # order 3: the simulator prefilters the template alone, the reference interpolates with a zero exterior (3e-2 of the maximum:
+    # 2.01e-2 was seen once in 46000 cases); order 1: exact up to the float32 position, whose error grows with the coordinate
+    maxcoord = max([float(np.abs(pos).max()) for _, pos, _ in comps if len(pos)] + [1.0])
+    tol = (3e-2 if order == 3 else 2e-4 + 16 * float(np.finfo(np.float32).eps) * maxcoord if order == 1 else None)
     if order == 0:
         # nearest neighbour: rounding ties make single voxels ambiguous; compare only grid/integer-shift cases
         if all(m["cls"] in ("grid", "outside") for c in d["components"] for m in c["mols"]):
